@@ -66,22 +66,17 @@ def main():
         out["demo_ok"] = out["demo_on_clean"]["rc"] == 0 and out["demo_on_patched"]["rc"] != 0
         props = [a.prop] + [p for p in a.also.split(",") if p and p != a.prop]
         out["checks"] = {}
-        evdir = os.path.join(VERIF, "evidence")
-        backup = tempfile.mkdtemp(prefix="ev-")
-        shutil.copytree(evdir, os.path.join(backup, "evidence"))
+        scratch_out = tempfile.mkdtemp(prefix="evout-")       # evidence/replays of these runs never touch /verif's
         try:
             for p in props:
                 for s in a.seeds.split(","):
                     t = time.time()
                     rc, o = sh([os.path.join(VERIF, "check"), p, "--tier", a.tier], cwd=VERIF,
-                               env=dict(os.environ, VERIF_REPO=patched, VERIF_SEED=s, VERIF_NPROC=a.nproc))
+                               env=dict(os.environ, VERIF_REPO=patched, VERIF_SEED=s, VERIF_NPROC=a.nproc, VERIF_OUT=scratch_out))
                     lines = [l for l in o.splitlines() if l.startswith(("VIOLATION", "  class=", "INCONCLUSIVE"))]
                     out["checks"]["%s@seed%s" % (p, s)] = {"rc": rc, "wall": round(time.time() - t, 1), "lines": [l[:260] for l in lines[:4]]}
         finally:
-            shutil.rmtree(evdir, ignore_errors=True)
-            shutil.copytree(os.path.join(backup, "evidence"), evdir)
-            shutil.rmtree(backup, ignore_errors=True)
-            shutil.rmtree(os.path.join(VERIF, "replays"), ignore_errors=True)
+            shutil.rmtree(scratch_out, ignore_errors=True)
         out["caught_by_owner"] = any(v["rc"] == 1 for k, v in out["checks"].items() if k.startswith(a.prop + "@"))
     finally:
         shutil.rmtree(clean, ignore_errors=True)
